@@ -80,6 +80,8 @@ class C01(Property):
             out.count("delay_resolved_cycles_completed")
         if spec["meta"]["n_pull"]:
             out.count("compositions_with_pull_based_components")
+        if spec["meta"].get("n_trunks"):
+            out.count("compositions_with_fanout_below_adapter")
         if any(c.get("publish_every") for c in spec["comps"]):
             out.count("compositions_with_sparse_publishers")
         if any(c.get("impl") == "shipped" for c in spec["comps"]):
@@ -88,7 +90,7 @@ class C01(Property):
 
     def coverage_gaps(self, counters, tier):
         need = ["updates_checked", "pulls_served", "delay_upstream_of_push_based", "delay_downstream_of_push_based", "links_with_several_delays",
-                "delay_resolved_cycles_completed", "compositions_with_pull_based_components", "compositions_with_shipped_components", "compositions_with_sparse_publishers"] + [
+                "delay_resolved_cycles_completed", "compositions_with_pull_based_components", "compositions_with_shipped_components", "compositions_with_sparse_publishers", "compositions_with_fanout_below_adapter"] + [
                     "adapter_" + a for a in ("scale", "probe", "lin", "next", "prev", "step", "avg", "sum", "dfix", "dpull", "dpush")]
         gaps = [f"{k} never observed" for k in need if not counters.get(k)]
         if counters.get("aborted_runs", 0) > 0.05 * max(1, counters.get("compositions", 0)):
